@@ -9,6 +9,7 @@ import (
 	"io"
 	"strings"
 	"testing"
+	"time"
 
 	"github.com/platinummonkey/go-concurrency-limits/core"
 	gcl "github.com/platinummonkey/go-concurrency-limits/grpc"
@@ -24,12 +25,13 @@ import (
 type c14Call struct {
 	Dir      string `json:"dir,omitempty"` // stream: recv | send
 	Grant    bool   `json:"grant"`
-	Err      int    `json:"err"`               // error the wrapped call returns: 0 nil, 1 generic, 2 io.EOF, 3 context.Canceled, 4 gRPC status, 5 context.DeadlineExceeded, 6 io.ErrUnexpectedEOF
-	Resp     int    `json:"resp"`              // which response object the wrapped call returns (0 = nil)
-	Classify int    `json:"classify"`          // custom classifier's answer: 0 success, 1 ignore, 2 dropped
-	Code     int    `json:"code"`              // custom limit-exceeded classifier's status code
-	Same     bool   `json:"same,omitempty"`    // stream: this operation runs on the same wrapped stream (same handler invocation) as the previous one
-	ExcErr   int    `json:"exc_err,omitempty"` // error the custom limit-exceeded classifier returns next to the code: 0 plain, 1 a gRPC status error carrying another code, 2 such a status error wrapped with %w
+	Err      int    `json:"err"`                // error the wrapped call returns: 0 nil, 1 generic, 2 io.EOF, 3 context.Canceled, 4 gRPC status, 5 context.DeadlineExceeded, 6 io.ErrUnexpectedEOF
+	Resp     int    `json:"resp"`               // which response object the wrapped call returns (0 = nil)
+	Classify int    `json:"classify"`           // custom classifier's answer: 0 success, 1 ignore, 2 dropped
+	Code     int    `json:"code"`               // custom limit-exceeded classifier's status code
+	CtxDone  int    `json:"ctx_done,omitempty"` // the caller's context: 0 live, 1 already cancelled, 2 deadline already expired (the limiter double ignores it; the classifier's choice must stand)
+	Same     bool   `json:"same,omitempty"`     // stream: this operation runs on the same wrapped stream (same handler invocation) as the previous one
+	ExcErr   int    `json:"exc_err,omitempty"`  // error the custom limit-exceeded classifier returns next to the code: 0 plain, 1 a gRPC status error carrying another code, 2 such a status error wrapped with %w
 }
 
 type c14Case struct {
@@ -68,6 +70,7 @@ func genC14(t *rapid.T) c14Case {
 			Code:     rapid.IntRange(1, 16).Draw(t, "code"),
 			ExcErr:   rapid.SampledFrom([]int{0, 0, 1, 2}).Draw(t, "excErr"),
 			Same:     rapid.Bool().Draw(t, "same"),
+			CtxDone:  rapid.SampledFrom([]int{0, 0, 0, 1, 2}).Draw(t, "ctxDone"),
 		}
 	})
 	c.Calls = rapid.SliceOfN(call, 1, 20).Draw(t, "calls")
@@ -108,14 +111,20 @@ func (k *c14Token) OnDropped()       { k.lim.log.add("dropped(%s.token%d)", k.li
 type c14Stream struct {
 	log *c14Log
 	err error
+	ctx context.Context
 }
 
 func (s *c14Stream) SetHeader(metadata.MD) error  { return nil }
 func (s *c14Stream) SendHeader(metadata.MD) error { return nil }
 func (s *c14Stream) SetTrailer(metadata.MD)       {}
-func (s *c14Stream) Context() context.Context     { return context.Background() }
-func (s *c14Stream) SendMsg(m any) error          { s.log.add("call(send)"); return s.err }
-func (s *c14Stream) RecvMsg(m any) error          { s.log.add("call(recv)"); return s.err }
+func (s *c14Stream) Context() context.Context {
+	if s.ctx != nil {
+		return s.ctx
+	}
+	return context.Background()
+}
+func (s *c14Stream) SendMsg(m any) error { s.log.add("call(send)"); return s.err }
+func (s *c14Stream) RecvMsg(m any) error { s.log.add("call(recv)"); return s.err }
 
 var c14Outcome = []string{"success", "ignore", "dropped"}
 
@@ -229,15 +238,26 @@ func runC14(_ *testing.T, c c14Case) (out kit.Outcome) {
 		wantResp := resps[call.Resp]
 		var gotResp any
 		var gotErr error
+		callCtx := context.Background()
+		switch call.CtxDone {
+		case 1:
+			cctx, cancel := context.WithCancel(callCtx)
+			cancel()
+			callCtx = cctx
+		case 2:
+			cctx, cancel := context.WithDeadline(callCtx, time.Unix(1, 0))
+			defer cancel()
+			callCtx = cctx
+		}
 		limName := "unary"
 		switch c.Kind {
 		case "server":
-			gotResp, gotErr = serverI(context.Background(), "req", &grpc.UnaryServerInfo{FullMethod: "/svc/M"}, func(ctx context.Context, req interface{}) (interface{}, error) {
+			gotResp, gotErr = serverI(callCtx, "req", &grpc.UnaryServerInfo{FullMethod: "/svc/M"}, func(ctx context.Context, req interface{}) (interface{}, error) {
 				log.add("call")
 				return wantResp, wantErr
 			})
 		case "client":
-			gotErr = clientI(context.Background(), "/svc/M", "req", "reply", nil, func(ctx context.Context, method string, req, reply interface{}, cc *grpc.ClientConn, opts ...grpc.CallOption) error {
+			gotErr = clientI(callCtx, "/svc/M", "req", "reply", nil, func(ctx context.Context, method string, req, reply interface{}, cc *grpc.ClientConn, opts ...grpc.CallOption) error {
 				log.add("call")
 				return wantErr
 			})
@@ -251,11 +271,11 @@ func runC14(_ *testing.T, c c14Case) (out kit.Outcome) {
 			}
 			if liveSS != nil {
 				// inside a handler that performs several operations on one wrapped stream
-				liveInner.err = wantErr
+				liveInner.err, liveInner.ctx = wantErr, callCtx
 				gotErr = op(liveSS)
 				break
 			}
-			inner := &c14Stream{log: log, err: wantErr}
+			inner := &c14Stream{log: log, err: wantErr, ctx: callCtx}
 			handlerRan := false
 			herr := runStream(inner, func(srv interface{}, ss grpc.ServerStream) error {
 				handlerRan = true
